@@ -147,6 +147,37 @@ macro_rules! stream_cmd {
                 let r = data_result($st.recv_data().await);
                 ctx.log(name, "rd", r);
             }
+            // the documented pattern: recv_data until it answers None (or an error)
+            "rb" => {
+                ctx.begin(name, "rb");
+                let mut body = Vec::new();
+                let r = loop {
+                    match $st.recv_data().await {
+                        Ok(Some(mut b)) => body.extend_from_slice(&b.copy_to_bytes(b.remaining())),
+                        Ok(None) => break format!("body:{}", to_hex(&body)),
+                        Err(e) => break format!("body:{}:{}", to_hex(&body), render_stream_err(&e)),
+                    }
+                };
+                ctx.log(name, "rb", r);
+            }
+            // the whole documented receive pattern: body until None, then (only after a clean
+            // end of body) the trailers
+            "rm" => {
+                ctx.begin(name, "rm");
+                let mut body = Vec::new();
+                let r = loop {
+                    match $st.recv_data().await {
+                        Ok(Some(mut b)) => body.extend_from_slice(&b.copy_to_bytes(b.remaining())),
+                        Ok(None) => break Ok(()),
+                        Err(e) => break Err(render_stream_err(&e)),
+                    }
+                };
+                let out = match r {
+                    Err(e) => format!("body:{}:{}", to_hex(&body), e),
+                    Ok(()) => format!("body:{}:{}", to_hex(&body), trailers_result($st.recv_trailers().await)),
+                };
+                ctx.log(name, "rm", out);
+            }
             "rt" => {
                 ctx.begin(name, "rt");
                 let r = trailers_result($st.recv_trailers().await);
